@@ -113,7 +113,7 @@ def run(tier, seed, replay=None):
                 fails.append({'what': 'the real archive does not round-trip a value (or reads past its own bytes)', 'case': l[:400]})
         n, err, bad = coq_check(lines)
         if bad:
-            fails.append({'what': 'Wire.encode/decode disagree with the real archive on a value', 'case': bad[:600]})
+            fails.append({'what': 'Wire.encode/decode disagree with the real archive on a value (the byte layout of the model is not the implementation\'s)', 'case': bad[:600], 'level': 'model'})
         nmsg, cf = comm_runs(seed, tier)
         fails += cf
         shapes = sorted({l.split('|')[0][2:].strip() for l in lines if l.startswith('V ')})
@@ -126,10 +126,11 @@ def run(tier, seed, replay=None):
     def search():
         lines, err = archive_cases(seed + 77, 1000, 60000)
         out = []
-        if lines:
-            n, err, bad = coq_check(lines, 'codec_s')
-            if bad:
-                out.append({'what': 'Wire.encode/decode disagree with the real archive', 'case': bad[:600]})
+        if lines is None:
+            out.append({'what': 'the real archive aborted / crashed while round-tripping a generated value (%s)' % (err or '').split('\n')[0][:200]})
+        for l in lines or []:
+            if 'rt=1' not in l or (l.startswith('V ') and 'rest=1' not in l):
+                out.append({'what': 'the real archive does not round-trip a value (or reads past its own bytes)', 'case': l[:400]})
         nm, cf = comm_runs(seed + 77, 'thorough')
         return out + cf
     return run_check('C06', tier, seed, 'Properties_C06.v', [], tie, search,
